@@ -193,3 +193,25 @@ def install4(R: Registry):
 
 
 PARSER_C12 = [P + "Parser.check_duplicate_name#five", P + "Parser.handle_host_id", P + "Parser.handle_module_id", P + "Parser.validate_msg_id"]
+
+
+def install5(R: Registry):
+    """C12: the section handlers call check_duplicate_name with the five shared namespaces before they register (call sites under contract)"""
+    FIVE = ("constants", "string_constants", "aliases", "struct_defs", "message_defs")
+    clash = " or ".join(f"exists('k:Str', dom(self.{f})[k] and self.{f}[k].name == name)" for f in FIVE)
+    nonnull = " and ".join(f"forall('k:Str', implies(dom(self.{f})[k], self.{f}[k] != null))" for f in FIVE)
+    R.define("anyclash", "self: Parser, name: Str", clash, "some constant, string constant, alias, struct or message already has this name")
+    R.define("tables_nonnull", "self: Parser", nonnull)
+    d = R.declare_class("ConstantString", fields=dict(name="Str", value="Str", src="PathObj"))
+    d.dataclass = True
+    R.contract(P + "Parser.handle_string", tags="C12", params=dict(name="Str", value="Str"),
+               requires=["tables_nonnull(self)", "self.current_file != null"],
+               modifies=["Parser.string_constants", "ConstantString.*"],
+               ensures=[("C12", "not old(anyclash(self, name))", "a string constant is accepted only if its name is free in all five shared namespaces"),
+                        ("C12", "dom(self.string_constants)[name] and self.string_constants[name].name == name and "
+                                "forall('k:Str', implies(k != name, dom(self.string_constants)[k] == old(dom(self.string_constants)[k]) and self.string_constants[k] == old(self.string_constants[k])))",
+                         "exactly the new item is registered, under its own name"),
+                        ("C12", "tables_nonnull(self)")],
+               raises={"DuplicateNameError": [("C12", "old(anyclash(self, name))", "a name conflict is reported only when there is one"),
+                                              ("C12", "self.string_constants == old(self.string_constants)")],
+                       "RTMASyntaxError": [("C12", "self.string_constants == old(self.string_constants)")]})
